@@ -8,7 +8,7 @@
 
 use crate::platform::Platform;
 use crate::{Hasher, OutputReader, join};
-use core::sync::atomic::{AtomicUsize, Ordering};
+use core::sync::atomic::{AtomicPtr, Ordering};
 
 /// Which kernel dispatcher is being entered.
 #[derive(Clone, Copy, Debug, PartialEq, Eq)]
@@ -23,39 +23,40 @@ pub type DetectHook = fn() -> Option<Platform>;
 pub type KernelHook = fn(KernelCall);
 pub type JoinHook = fn(&mut (dyn FnMut() + Send), &mut (dyn FnMut() + Send));
 
-static DETECT: AtomicUsize = AtomicUsize::new(0);
-static KERNEL: AtomicUsize = AtomicUsize::new(0);
-static JOIN: AtomicUsize = AtomicUsize::new(0);
+// Function pointers are kept as `*mut ()` (not as integers) so that they keep their provenance.
+static DETECT: AtomicPtr<()> = AtomicPtr::new(core::ptr::null_mut());
+static KERNEL: AtomicPtr<()> = AtomicPtr::new(core::ptr::null_mut());
+static JOIN: AtomicPtr<()> = AtomicPtr::new(core::ptr::null_mut());
 
 pub fn set_detect_hook(hook: Option<DetectHook>) {
-    DETECT.store(hook.map_or(0, |f| f as usize), Ordering::SeqCst);
+    DETECT.store(hook.map_or(core::ptr::null_mut(), |f| f as *mut ()), Ordering::SeqCst);
 }
 
 pub fn set_kernel_hook(hook: Option<KernelHook>) {
-    KERNEL.store(hook.map_or(0, |f| f as usize), Ordering::SeqCst);
+    KERNEL.store(hook.map_or(core::ptr::null_mut(), |f| f as *mut ()), Ordering::SeqCst);
 }
 
 pub fn set_join_hook(hook: Option<JoinHook>) {
-    JOIN.store(hook.map_or(0, |f| f as usize), Ordering::SeqCst);
+    JOIN.store(hook.map_or(core::ptr::null_mut(), |f| f as *mut ()), Ordering::SeqCst);
 }
 
 #[inline]
 pub(crate) fn detect_override() -> Option<Platform> {
     let raw = DETECT.load(Ordering::SeqCst);
-    if raw == 0 {
+    if raw.is_null() {
         return None;
     }
     // SAFETY: only set_detect_hook stores here, and it stores a DetectHook.
-    let hook: DetectHook = unsafe { core::mem::transmute::<usize, DetectHook>(raw) };
+    let hook: DetectHook = unsafe { core::mem::transmute::<*mut (), DetectHook>(raw) };
     hook()
 }
 
 #[inline]
 pub(crate) fn kernel_entry(call: KernelCall) {
     let raw = KERNEL.load(Ordering::SeqCst);
-    if raw != 0 {
+    if !raw.is_null() {
         // SAFETY: only set_kernel_hook stores here, and it stores a KernelHook.
-        let hook: KernelHook = unsafe { core::mem::transmute::<usize, KernelHook>(raw) };
+        let hook: KernelHook = unsafe { core::mem::transmute::<*mut (), KernelHook>(raw) };
         hook(call);
     }
 }
@@ -75,11 +76,11 @@ impl join::Join for VerifJoin {
         RB: Send,
     {
         let raw = JOIN.load(Ordering::SeqCst);
-        if raw == 0 {
+        if raw.is_null() {
             return (oper_a(), oper_b());
         }
         // SAFETY: only set_join_hook stores here, and it stores a JoinHook.
-        let hook: JoinHook = unsafe { core::mem::transmute::<usize, JoinHook>(raw) };
+        let hook: JoinHook = unsafe { core::mem::transmute::<*mut (), JoinHook>(raw) };
         let mut oper_a = Some(oper_a);
         let mut oper_b = Some(oper_b);
         let mut result_a: Option<RA> = None;
